@@ -112,7 +112,7 @@ static void run_ops(int self) {
         e.trace.push_back(TraceEv{self, me.pc, r.ret, r.err, (uint64_t)photon::now});
         if (e.trace.size() > 100000) emit_and_exit("TRACE-LIMIT ");
     }
-    me.finished = true;
+    if (self != 0) me.finished = true;   // T0 (the main photon thread) parks but stays a valid target
 }
 
 void* thread_body(void* arg) {
